@@ -121,7 +121,8 @@ def param_spec(draw, types=TYPES, for_schema=False):
             lo, hi = cfg.get("bounds", (0, 3))
             it = cfg.get("item_type")
             elem = {None: _json, int: st.integers(-5, 5), str: _text, float: st.floats(allow_nan=False, allow_infinity=False),
-                    (int, str): st.one_of(st.integers(-5, 5), _text)}[it]
+                    (int, str): st.one_of(st.integers(-5, 5), _text), bool: st.booleans(),
+                    list: st.lists(st.integers(0, 3), max_size=2)}[it]
             return draw(st.lists(elem, min_size=lo or 0, max_size=hi if hi is not None else 3))
         if t == "Dict":
             return draw(st.dictionaries(_text, _json, max_size=3))
@@ -133,7 +134,9 @@ def param_spec(draw, types=TYPES, for_schema=False):
             return draw(st.sampled_from(["#fff", "#00ff7f", "abcdef", "#ABC", "000"]))
         if t == "ClassSelector":
             c = cfg["class_"]
-            pool = {int: st.integers(-5, 5), str: _text, float: st.floats(allow_nan=False, allow_infinity=False)}
+            pool = {int: st.integers(-5, 5), str: _text, float: st.floats(allow_nan=False, allow_infinity=False),
+                    bool: st.booleans(), list: st.lists(st.integers(0, 3), max_size=2),
+                    tuple: st.lists(st.integers(0, 3), max_size=2).map(tuple), dict: st.dictionaries(_text, st.integers(0, 3), max_size=2)}
             return draw(st.one_of(*[pool[x] for x in (c if isinstance(c, tuple) else (c,))]))
         raise KeyError(t)
 
@@ -155,7 +158,7 @@ def param_spec(draw, types=TYPES, for_schema=False):
         if draw(st.booleans()):
             a = draw(st.integers(0, 2))
             cfg["bounds"] = (a, draw(st.integers(a, 3)))
-        it = draw(st.sampled_from([None, None, int, str, float, (int, str)]))
+        it = draw(st.sampled_from([None, None, int, str, float, (int, str)] + ([bool, list] if for_schema else [])))
         if it is not None:
             cfg["item_type"] = it
     elif t in ("Selector", "ListSelector"):
@@ -168,7 +171,7 @@ def param_spec(draw, types=TYPES, for_schema=False):
             first = cfg["objects"][0]
             cfg["objects_appended"] = [draw(st.sampled_from(["zz", "q"] if isinstance(first, str) else [150, 7.5]))]
     elif t == "ClassSelector":
-        cfg["class_"] = draw(st.sampled_from([int, str, float, (int, str)]))
+        cfg["class_"] = draw(st.sampled_from([int, str, float, (int, str), bool, list, tuple, dict, (bool, str)]))
     if t in ("Selector", "ListSelector") and for_schema and draw(st.integers(0, 5)) == 0:
         cfg["objects"] = []          # no allowed objects declared (check_on_set is then False)
         return (t, cfg, None, None)
@@ -213,7 +216,7 @@ def build_class(specs, name="K"):
 
 from vlib.core import dec as _dec, enc as _enc   # noqa: E402
 
-_TN = {int: "int", str: "str", float: "float"}
+_TN = {int: "int", str: "str", float: "float", bool: "bool", list: "list", tuple: "tuple", dict: "dict"}
 _NT = {v: k for k, v in _TN.items()}
 
 
